@@ -108,6 +108,17 @@ theorem inv_step (bound : Nat) (st : St) (o : Op) (h : Inv st) (hw : wfOp st o) 
         simp [step, hbk']
       rw [e]
       exact ⟨fun ha s => h1 ha s, fun ha s => h2 ha s, fun s hp => h3 s hp⟩
+  | raiseT sig =>
+    by_cases hbk : st.blocked sig = true
+    · have e : step bound st (.raiseT sig) = { st with pendingT := fun x => if x == sig then true else st.pendingT x } := by
+        simp [step, hbk]
+      rw [e]
+      exact ⟨fun ha s => h1 ha s, fun ha s => h2 ha s, fun s hp => h3 s hp⟩
+    · have hbk' : st.blocked sig = false := by simpa using hbk
+      have e : step bound st (.raiseT sig) = { st with handled := fun x => if x == sig then st.handled x + 1 else st.handled x } := by
+        simp [step, hbk']
+      rw [e]
+      exact ⟨fun ha s => h1 ha s, fun ha s => h2 ha s, fun s hp => h3 s hp⟩
   | dispatch =>
     by_cases ha : st.alive = true
     · refine ⟨fun _ s => by simpa [step, ha] using h1 ha s, fun hf => by simp [step, ha] at hf, fun s hp => ?_⟩
@@ -152,24 +163,36 @@ theorem pending_kept (bound : Nat) (st : St) (o : Op) (s : Nat) (ha : st.alive =
   · simp [step, ha, block, unblock, SSet.diff, hp, hl]
   · simp [step, ha, unblock, hp, hl]
 
-/-- **Every pending configured signal is reported exactly once by a dispatch**, in ascending order, and
-    is no longer pending afterwards. -/
+/-- **Every pending instance of a configured signal is reported exactly once by a dispatch** — the instances queued
+    for the thread first, then those queued for the process, each in ascending order; a signal pending in both queues
+    is reported twice (two instances) — and none of them is pending afterwards. -/
 theorem dispatch_reports_pending_once (bound : Nat) (st : St) (ha : st.alive = true) :
     let st' := step bound st .dispatch
     st'.reported = st.reported ++ readable st bound ∧
-    (readable st bound).Nodup ∧
-    (∀ s, s ∈ readable st bound ↔ (s < bound ∧ st.pending s = true ∧ st.sfd s = true)) ∧
-    (∀ s, s ∈ readable st bound → st'.pending s = false) := by
-  refine ⟨by simp [step, ha], ?_, ?_, ?_⟩
-  · unfold readable
-    exact List.Pairwise.sublist List.filter_sublist List.nodup_range
-  · intro s; simp [readable, List.mem_filter, List.mem_range]
+    (readable st bound = ((List.range bound).filter fun s => st.pendingT s && st.sfd s) ++
+                          ((List.range bound).filter fun s => st.pending s && st.sfd s)) ∧
+    ((List.range bound).filter fun s => st.pendingT s && st.sfd s).Nodup ∧
+    ((List.range bound).filter fun s => st.pending s && st.sfd s).Nodup ∧
+    (∀ s, (readable st bound).count s = (if s < bound ∧ st.pendingT s = true ∧ st.sfd s = true then 1 else 0) +
+                                         (if s < bound ∧ st.pending s = true ∧ st.sfd s = true then 1 else 0)) ∧
+    (∀ s, s ∈ readable st bound → st'.pending s = false ∧ st'.pendingT s = false) := by
+  have hnd : ∀ (p : Nat → Bool), ((List.range bound).filter p).Nodup :=
+    fun p => List.Pairwise.sublist List.filter_sublist List.nodup_range
+  have hcount : ∀ (p : Nat → Bool) (s : Nat), ((List.range bound).filter p).count s = if s < bound ∧ p s = true then 1 else 0 := by
+    intro p s
+    rw [(hnd p).count]
+    simp [List.mem_filter, List.mem_range]
+  refine ⟨by simp [step, ha], rfl, hnd _, hnd _, ?_, ?_⟩
+  · intro s
+    unfold readable
+    rw [List.count_append, hcount, hcount]
+    simp [Bool.and_eq_true]
   · intro s hs
     simp [step, ha, hs]
 
 /-- nothing but pending signals of the signalfd's mask is ever reported -/
 theorem reports_only_configured (bound : Nat) (st : St) (o : Op) (s : Nat)
-    (h : s ∈ (step bound st o).reported) : s ∈ st.reported ∨ (st.pending s = true ∧ st.sfd s = true) := by
+    (h : s ∈ (step bound st o).reported) : s ∈ st.reported ∨ ((st.pending s = true ∨ st.pendingT s = true) ∧ st.sfd s = true) := by
   cases o <;> simp only [step] at h
   case dispatch =>
     split at h
@@ -177,7 +200,12 @@ theorem reports_only_configured (bound : Nat) (st : St) (o : Op) (s : Nat)
     · simp only [List.mem_append] at h
       cases h with
       | inl h => exact Or.inl h
-      | inr h => right; simp [readable, List.mem_filter] at h; exact h.2
+      | inr h =>
+        right
+        simp [readable, List.mem_filter] at h
+        rcases h with h | h
+        · exact ⟨Or.inr h.2.1, h.2.2⟩
+        · exact ⟨Or.inl h.2.1, h.2.2⟩
   all_goals first
     | exact Or.inl h
     | (split at h <;> exact Or.inl h)
@@ -195,6 +223,15 @@ theorem unconfigured_untouched (bound : Nat) (st : St) (s : Nat) (h : st.blocked
 theorem configured_becomes_pending (bound : Nat) (st : St) (s : Nat) (h : st.blocked s = true) :
     (step bound st (.raise s)).pending s = true ∧ (step bound st (.raise s)).handled s = st.handled s := by
   simp [step, h]
+
+/-- a signal raised for the thread and for the process while it is configured is pending twice — two instances, both
+    reported by the next dispatch -/
+theorem two_routes_two_instances (bound : Nat) (st : St) (s : Nat) (ha : st.alive = true) (hb : st.blocked s = true)
+    (hs : st.sfd s = true) (hlt : s < bound) :
+    (readable (step bound (step bound st (.raise s)) (.raiseT s)) bound).count s = 2 := by
+  have h := (dispatch_reports_pending_once bound (step bound (step bound st (.raise s)) (.raiseT s)) (by simp [step, hb, ha])).2.2.2.2.1 s
+  rw [h]
+  simp [step, hb, hs, hlt]
 
 /-- dropping the source unblocks everything it had configured -/
 theorem drop_unblocks (bound : Nat) (ops : List Op) (hw : WF {} ops)
@@ -216,7 +253,7 @@ example : (run 64 {} [.new [10], .raise 10, .set [10, 12], .dispatch]).handled 1
 /-- does the operation name signal `x`? -/
 def mentions (x : Nat) : Op → Bool
   | .new l | .add l | .remove l | .set l => l.contains x
-  | .raise s => s == x
+  | .raise s | .raiseT s => s == x
   | _ => false
 
 /-- **A signal no operation names is left exactly as it was** — blocked by the application, by another `Signals`
@@ -239,6 +276,8 @@ theorem foreign_step (bound : Nat) (st : St) (o : Op) (x : Nat) (hm : st.mask x 
   | dropSrc =>
     by_cases ha : st.alive = true <;> simp [step, ha, unblock, SSet.diff, SSet.empty, hm]
   | raise s =>
+    by_cases hb : st.blocked s = true <;> simp [step, hb, hm]
+  | raiseT s =>
     by_cases hb : st.blocked s = true <;> simp [step, hb, hm]
   | dispatch =>
     by_cases ha : st.alive = true <;> simp [step, ha, hm]
